@@ -186,6 +186,10 @@ def run_shard(spec, R):
             tdm = TR.transport_density(M, flux, c["l1"], 1.0 if cw is None else float(cw))
             sub["transport_density"] = td.shape == shape and float(np.max(np.abs(M.flat(td) - tdm))) <= 1e-10 * max(float(np.max(np.abs(tdm))), 1e-300)
             sub["density_integrates_to_cost"] = abs(float(np.sum(td)) * M.volume - ind) <= 1e-10 * max(abs(ind), 1e-300)
+            # the public density evaluation without cell weights (quadrature consumer of C15) on the same flux
+            tdu = np.asarray(w1.transport_density(flux, weighted=False, flatten=True), float)
+            tdu_m = TR.transport_density(M, flux, c["l1"], 1.0)
+            sub["unweighted_transport_density"] = tdu.shape == tdu_m.shape and float(np.max(np.abs(tdu - tdu_m))) <= 1e-10 * max(float(np.max(np.abs(tdu_m))), 1e-300)
             press = np.asarray(info_out["pressure"], float)
             pflat = np.asarray(sol[w1.pressure_slice], float)
             sub["pressure_is_solution_block"] = press.shape == shape and np.array_equal(M.flat(press), pflat, equal_nan=True)
